@@ -683,11 +683,14 @@ class ProjectData(sc.prettyobj):
 
         # Update interactions and transfers - need to change all of the to/from tuples
         for interaction in self.transfers + self.interpops:
-            idx = interaction.from_pops.index(existing_code_name)
-            interaction.from_pops[idx] = new_code_name
+            # The population only appears on the sides of the interaction that match its population type
+            if existing_code_name in interaction.from_pops:
+                idx = interaction.from_pops.index(existing_code_name)
+                interaction.from_pops[idx] = new_code_name
 
-            idx = interaction.to_pops.index(existing_code_name)
-            interaction.to_pops[idx] = new_code_name
+            if existing_code_name in interaction.to_pops:
+                idx = interaction.to_pops.index(existing_code_name)
+                interaction.to_pops[idx] = new_code_name
 
             for from_pop, to_pop in interaction.ts.keys():
                 if to_pop == existing_code_name and from_pop == existing_code_name:
@@ -707,8 +710,11 @@ class ProjectData(sc.prettyobj):
         del self.pops[pop_name]
 
         for interaction in self.transfers + self.interpops:
-            interaction.to_pops.remove(pop_name)
-            interaction.from_pops.remove(pop_name)
+            # The population only appears on the sides of the interaction that match its population type
+            if pop_name in interaction.to_pops:
+                interaction.to_pops.remove(pop_name)
+            if pop_name in interaction.from_pops:
+                interaction.from_pops.remove(pop_name)
 
             for k in list(interaction.ts.keys()):
                 if k[0] == pop_name or k[1] == pop_name:
